@@ -443,3 +443,7 @@ def check(ctx):
     # the store defines, a check object; = C03.MISSING)
     from .c03 import check_missing
     ctx.borrow('C06.UNDEFINED', check_missing, only=['C03.MISSING'])
+    # the answer for a name depends on the store as it is now: nothing is
+    # remembered per name between calls (= C07.STATELESS)
+    from .c07 import check_stateless
+    check_stateless(ctx, 'C06.STATELESS')
